@@ -234,4 +234,33 @@ theorem can_finish {rs : List (List Role)} : ∀ (n : Nat) (c : Cfg), Reach GP r
       simp only [runSched, hst]
       exact hrun
 
+/-! ## the visible-step semantics (what the correspondence replays) is a sub-semantics of `Reach` -/
+
+theorem runToYield_reach {P : Progs} {rs : List (List Role)} (i : Nat) : ∀ (fuel : Nat) (c c' : Cfg),
+    Reach P rs c → runToYield P i fuel c = .ok c' → Reach P rs c'
+  | 0, c, c', h, hr => by
+    simp only [runToYield] at hr; injection hr with hr; subst hr; exact h
+  | fuel + 1, c, c', h, hr => by
+    simp only [runToYield] at hr
+    split at hr
+    · injection hr with hr; subst hr; exact h
+    · split at hr
+      · rename_i c1 h1
+        exact runToYield_reach i fuel c1 c' (Reach.step i h h1) hr
+      · cases hr
+      · cases hr
+      · cases hr
+
+/-- a visible step (pending lock operation, then on to the next lock operation) leads from a reachable configuration to a
+reachable configuration: every schedule of the real scheduler's granularity is a thread-level schedule -/
+theorem vstep_reach {P : Progs} {rs : List (List Role)} (fuel : Nat) (c c' : Cfg) (i : Nat)
+    (h : Reach P rs c) (hv : vstep P fuel c i = .ok c') : Reach P rs c' := by
+  simp only [vstep] at hv
+  split at hv
+  · rename_i c1 h1
+    exact runToYield_reach i fuel c1 c' (Reach.step i h h1) hv
+  · cases hv
+  · cases hv
+  · cases hv
+
 end RW
